@@ -313,12 +313,17 @@ def _index(rng, k, v, style):
     return d
 
 
+CONTIGUOUS_LEAVES = False      # checks may switch strided / reversed leaf buffers off for a stream
+
+
 def _numpy_phys(rng, arr, style):
     """a view with the same logical content as arr but a random physical layout"""
     arr = np.ascontiguousarray(arr)
     if style == "canonical" or arr.ndim == 0:
         return arr
     r = rng.random()
+    if CONTIGUOUS_LEAVES and r >= 0.7:
+        r = 0.6
     if r < 0.55:
         return arr
     n = arr.shape[0]
